@@ -73,6 +73,28 @@ func (in *Interp) inputR(s term.Sort, name string, lo, hi int64) *term.Term {
 	}
 	v := term.Var(s, name)
 	in.inputs = append(in.inputs, v)
+	if in.followEnv != nil {
+		seed := in.job.Follow
+		switch s.K {
+		case term.KFloat:
+			x := autoFloat(seed, name)
+			if s.Bits == 32 {
+				x = float64(float32(x))
+			}
+			in.followEnv[name] = term.Val{F: x}
+		case term.KInt:
+			switch {
+			case hi >= lo:
+				in.followEnv[name] = term.Val{I: uint64(autoInt(seed, name, lo, hi))}
+			case s.Bits < 64:
+				in.followEnv[name] = term.Val{I: uint64(autoIntN(seed, name, s.Bits))}
+			default:
+				in.followEnv[name] = term.Val{I: uint64(autoInt(seed, name, -1000, 1000))}
+			}
+		default:
+			in.followEnv[name] = term.Val{B: autoBool(seed, name)}
+		}
+	}
 	return v
 }
 
